@@ -380,7 +380,15 @@ class Executor:
             return ClosureV(mc.group(1).strip())
         if re.search(r"::promoted\[\d+\]$", t):
             return self.promoted(t)
-        raise Unsupported("constant %r" % t)
+        m = re.fullmatch(r"(?:core::num::<impl )?([iu](?:8|16|32|64|128|size))>?::(MAX|MIN|BITS)", t)
+        if m:
+            w, sg = INT_TY[m.group(1)]
+            if m.group(2) == "BITS":
+                return z3.BitVecVal(w, 32)
+            if m.group(2) == "MAX":
+                return z3.BitVecVal((1 << (w - 1)) - 1 if sg else (1 << w) - 1, w)
+            return z3.BitVecVal(-(1 << (w - 1)) if sg else 0, w)
+        raise Unsupported("constant %r" % t[:120])
 
     def promoted(self, name):
         """a promoted constant: run its body and strip the references (a reference to a scalar is the scalar)"""
